@@ -48,4 +48,12 @@ for m in specs.MUTANTS + getattr(specs, 'BENIGN', []):
             fh.write("# expect: %s\n" % e)
         fh.write("".join(out))
     n += 1
+if not only:
+    # remove files of mutants that are no longer specified
+    import glob
+    wanted = {os.path.join(VERIF, "selftest", "mutants", m["prop"], m["name"] + ".diff") for m in specs.MUTANTS + getattr(specs, "BENIGN", [])}
+    for f in glob.glob(os.path.join(VERIF, "selftest", "mutants", "*", "*.diff")):
+        if f not in wanted:
+            os.remove(f)
+            print("removed stale", os.path.relpath(f, VERIF))
 print("wrote", n, "mutants")
